@@ -299,6 +299,12 @@ CANARIES = [
 
 def obligations(tier, seed):
     specs = []
+    # compact caches: the tile walk removes through remove_tile of the bundle -- the slot of a neighbour (index entry and
+    # record bytes) is outside everything the removal writes (the C19 byte-level step obligations, frame argument)
+    for ver, func in (('v1', 'run_v1'), ('v2', 'run_v2')):
+        for part in ('other-entry', 'other-bytes'):
+            specs.append(dict(name='compact-remove-leaves-neighbours/%s/%s' % (ver, part), module='props.C19_bundle', func=func, kind='holds',
+                              args=dict(op='remove', part=part), cost=40))
     for layout in ('tc', 'mp', 'tms', 'arcgis', 'reverse_tms'):
         specs.append(spec(MOD, 'LevelPrefix', 'level-directory/%s' % layout, cfg=dict(layout=layout, d1='none')))
     # known finding: tiles below a dimension directory are not reached by the directory strategy
